@@ -98,7 +98,7 @@ def run_kani_units(units, prop, tier, scratch, jobs, only=None):
                                         backend='kani', label=h.label, fn=h.fn, attempt=h.attempt, detail={'log': tail}))
             continue
         for h in hs:
-            if h.expect.startswith('finding:') and h.expect.split(':', 1)[1] not in open_ids:
+            if h.expect.startswith('finding:') and h.expect.split(':', 1)[1] not in open_ids and not h.standalone:
                 # the finding is not listed as open: nothing is carved out of the main harness, so this
                 # reproduction harness is redundant
                 continue
@@ -116,7 +116,7 @@ def run_kani_units(units, prop, tier, scratch, jobs, only=None):
                       'wall_s': r['wall_s']}
             base = dict(backend='kani/cbmc', label=h.label, fn=h.fn, time_s=r.get('time_s') or r['wall_s'],
                         attempt=h.attempt, detail=detail)
-            is_finding = h.expect.startswith('finding:')
+            is_finding = h.expect.startswith('finding:') and h.expect.split(':', 1)[1] in open_ids
             fid = h.expect.split(':', 1)[1] if is_finding else None
             if st == 'pass':
                 if is_finding:
